@@ -94,7 +94,7 @@ class Gen:
                     else:
                         out.append(("brk",))
                 break
-            elif r < 0.93 and in_sub:
+            elif r < 0.945 and in_sub:
                 out.append(("ret",))
                 break
             elif r < 0.97 and depth > 0 and len(self.subs) < 3 and not in_sub:
@@ -156,6 +156,53 @@ def enum_programs(max_size):
             for i, a in enumerate(combo):
                 body += renumber(atoms[a], i * 10)
             yield {"body": body, "subs": []}
+
+
+def enum_sub_programs():
+    """systematic shapes of awaited sub-coroutines with returns: if/else where each side is empty, returns always,
+    returns conditionally (nested if) or awaits, followed by more statements; called first / after an action"""
+    sides = [
+        [],
+        [("ret",)],
+        [("act", 1, 1)],
+        [("act", 1, 1), ("ret",)],
+        [("if", 2, [("ret",)], [])],
+        [("if", 2, [("ret",)], [("act", 2, 2)])],
+        [("if", 2, [("act", 2, 2)], [("ret",)])],
+        [("await", 3), ("ret",)],
+        [("await", "t")],
+    ]
+    tails = [[("act", 0, 5)], [("await", 4), ("act", 0, 5)], []]
+    out = []
+    for a in sides:
+        for b in sides:
+            for t in tails:
+                sub = [("if", 1, a, b)] + t
+                for pre in ([], [("act", 2, 7)]):
+                    body = pre + [("call", 0), ("act", 0, 9)]
+                    out.append({"body": renumber_prog(body, 0), "subs": [renumber_prog(sub, 20)]})
+    return out
+
+
+def renumber_prog(stmts, off):
+    """give every action a distinct value (so that a trace identifies the statement)"""
+    cnt = [off]
+
+    def go(b):
+        r = []
+        for st in b:
+            if st[0] == "act":
+                cnt[0] += 1
+                r.append(("act", st[1], cnt[0]))
+            elif st[0] == "if":
+                r.append(("if", st[1], go(st[2]), go(st[3])))
+            elif st[0] == "while":
+                r.append(("while", st[1], go(st[2])))
+            else:
+                r.append(st)
+        return r
+
+    return go(stmts)
 
 
 def renumber(stmts, off):
@@ -599,6 +646,8 @@ def run(ctx: Ctx):
                 "inside a branch or loop; distinct = distinct source bodies")
     n_prog = ctx.scale(500, 4000)
     progs = [gen_program(rng, rng.choice([6, 10, 16, 24]), rng.choice([2, 3, 4])) for _ in range(n_prog)]
+    subs_sys = enum_sub_programs()
+    progs += subs_sys if not ctx.quick else [subs_sys[i] for i in sorted(rng.sample(range(len(subs_sys)), 150))]
     if not ctx.quick:
         progs += list(enum_programs(3))
     srcs = [render_source(p) for p in progs]
